@@ -2,6 +2,7 @@
 from harness import dstprops, hcommon, hprop_run
 
 PROP = "C06"
+EXTRA_PROPS = ("C06b",)     # history level: the tracker denotes exactly the missing bytes, any arrival order of tiles
 
 
 def proj(kind, d):
@@ -18,7 +19,7 @@ def run(tier, seed):
         "acknowledged-mode destinations fed the grid segments of a file in random order with losses and duplicates, Metadata "
         "and EOF at any position, NAK timer expiries in between, immediate and deferred NAK mode, packet lengths allowing "
         "1/2/3/many requests per NAK PDU; distinct = (config class, visited (step, op, exception) set)",
-        theorem="c06_* (correspondence dest: NAK PDUs + tracker)", label="grid arrivals")
+        theorem="c06_* (correspondence dest: NAK PDUs + tracker)", label="grid arrivals", extra_gate=EXTRA_PROPS)
 
 
 def replay(path):
